@@ -353,6 +353,7 @@ func (e *Engine) runPath(fn *ssa.Function, prefix []uint64, base Options) {
 	e.mapOrderN = 0
 	e.spec = nil
 	e.cwd = ""
+	e.dirs = nil
 	e.absKernel = nil
 	e.res.Paths++
 	end := "completed"
